@@ -268,14 +268,19 @@ def r_piecewise_cont(A, ctx, scope, rule="R-PIECEWISE-CONT"):
     for cls in A.prog.datafits:
         for name, f in sorted(cls.methods.items()):
             for node in ast.walk(f.node):
-                if not (isinstance(node, ast.If) and node.orelse and isinstance(node.test, ast.Compare)
-                        and len(node.test.ops) == 1 and isinstance(node.test.ops[0], (ast.Lt, ast.LtE, ast.Gt, ast.GtE))):
+                if not (isinstance(node, ast.If) and node.orelse):
+                    continue
+                test = node.test
+                while isinstance(test, ast.UnaryOp) and isinstance(test.op, ast.Not):
+                    test = test.operand          # `if not (c): B else: A` has the same junction
+                if not (isinstance(test, ast.Compare) and len(test.ops) == 1
+                        and isinstance(test.ops[0], (ast.Lt, ast.LtE, ast.Gt, ast.GtE))):
                     continue
                 a, b = _increment(node.body), _increment(node.orelse)
                 if a is None or b is None or a[0] != b[0]:
                     continue
-                lhs, rhs = node.test.left, node.test.comparators[0]
-                if isinstance(node.test.ops[0], (ast.Gt, ast.GtE)):
+                lhs, rhs = test.left, test.comparators[0]
+                if isinstance(test.ops[0], (ast.Gt, ast.GtE)):
                     lhs, rhs = rhs, lhs
                     # `t > |r|` is `|r| < t` with the arms in the same order
                 under_abs = isinstance(lhs, ast.Call) and len(lhs.args) == 1 and \
